@@ -261,11 +261,12 @@ class MelodyModel:
         self._loader = loader.MelodyLoader(path, **kwargs)
         self._fallback_render_aird = fallback_render_aird
 
-        if diagram_cache:
+        if isinstance(diagram_cache, filehandler.FileHandler):
+            # a handler object is used as given, whatever its truth value
+            self.diagram_cache = diagram_cache
+        elif diagram_cache:
             if diagram_cache == path:
                 self.diagram_cache = self._loader.filehandler
-            elif isinstance(diagram_cache, filehandler.FileHandler):
-                self.diagram_cache = diagram_cache
             elif isinstance(diagram_cache, cabc.Mapping):
                 self.diagram_cache = filehandler.get_filehandler(
                     **diagram_cache
